@@ -361,6 +361,16 @@ S["loop_unsettled_consumer_first"] = dict(
     until=2, max_loop=3, groups=G1, order=["Mo", "B", "A"],
     sims=[E("A", group="g", init_event=0, emit_default=0), E("B", group="g", emit_default=0), E("Mo")],
     conns=[C("A", "B", "eo", "ti"), C("B", "A", "eo", "ti", weak=True), C("A", "Mo", "eo", "ti")])
+# an adaptive simulator (next step = max_advance + 1) behind a time-shifted trigger whose source
+# is itself triggered by a slow feeder
+S["adaptive_shift_trigger"] = dict(
+    until=5, max_budget=0,
+    sims=[E("Fe", init_event=0, next=[1, 1, 2], emit_default=0), E("Sr", emit_default=0),
+          H("Gu", adaptive=True)],
+    conns=[C("Fe", "Sr", "eo", "ti"), C("Sr", "Gu", "eo", "ti", shift=1)])
+S["adaptive_plain_trigger"] = dict(
+    until=5, sims=[E("Fe", init_event=1, next=[2], emit_default=0), H("Gu", adaptive=True)],
+    conns=[C("Fe", "Gu", "eo", "ti")])
 # loops on two levels of nested groups: neither makes max_loop iterations, together they do
 S["loop_two_levels"] = dict(
     until=1, max_loop=3, groups={"g": None, "h": "g"}, max_budget=0,
